@@ -1004,6 +1004,176 @@ fn ctx_from_solution(case: &Value) {
     println!("{}", serde_json::to_string(&json!({"kept": kept, "available": available})).unwrap());
 }
 
+/// Shared reload resource (C05 / C01): routes that draw on one resource, refreshed; then ONE more job goes into route 0 and
+/// the rule is probed on the last route with a demand that just fits / just does not fit what is really left.
+fn shared_resource(case: &Value) {
+    use vrp_core::construction::features::{create_minimize_tours_feature, ReloadFeatureFactory};
+    let cap = case["capacity"].as_i64().unwrap() as i32;
+    let demands: Vec<Vec<i32>> = case["demands"].as_array().unwrap().iter().map(|r| r.as_array().unwrap().iter().map(|d| d.as_i64().unwrap() as i32).collect()).collect();
+    let vehicles: Vec<Arc<Vehicle>> = (0..demands.len())
+        .map(|i| {
+            let mut dimens = Dimensions::default();
+            dimens.set_vehicle_id(format!("v{i}"));
+            dimens.set_vehicle_capacity(SingleDimLoad::new(1_000_000));
+            Arc::new(Vehicle {
+                profile: Profile::default(),
+                costs: costs(&Value::Null),
+                dimens,
+                details: vec![VehicleDetail {
+                    start: Some(VehiclePlace { location: 0, time: TimeInterval { earliest: Some(0.), latest: None } }),
+                    end: Some(VehiclePlace { location: 0, time: TimeInterval { earliest: None, latest: Some(1000.) } }),
+                }],
+            })
+        })
+        .collect();
+    let driver = Driver { costs: costs(&Value::Null), dimens: Default::default(), details: vec![] };
+    let fleet = Fleet::new(vec![Arc::new(driver)], vehicles, |_| |_| 0);
+    let feature = ReloadFeatureFactory::<SingleDimLoad>::new("reload")
+        .set_capacity_code(ViolationCode(2))
+        .set_resource_code(ViolationCode(9))
+        .set_is_reload_single(|single| single.dimens.get_job_id().is_some_and(|id| id == "reload"))
+        .set_belongs_to_route(|_, _| true)
+        .set_load_schedule_threshold(|capacity: &SingleDimLoad| *capacity)
+        .set_shared_resource_capacity(move |activity| {
+            activity.job.as_ref().and_then(|s| s.dimens.get_job_id()).filter(|id| *id == "reload").map(|_| (SingleDimLoad::new(cap), 0))
+        })
+        .set_shared_demand_capacity(|single| {
+            let demand: Option<&Demand<SingleDimLoad>> = single.dimens.get_job_demand();
+            demand.map(|d| d.delivery.0)
+        })
+        .set_is_partial_solution(|_| false)
+        .build_shared()
+        .unwrap();
+    let goal = GoalContextBuilder::with_features(&[feature, create_minimize_tours_feature("tours").unwrap()]).unwrap().build().unwrap();
+    let mk_act = |reload: bool, d: i32| {
+        let mut dimens = Dimensions::default();
+        if reload {
+            dimens.set_job_id("reload".to_string());
+        } else {
+            dimens.set_job_demand(Demand { pickup: (SingleDimLoad::default(), SingleDimLoad::default()), delivery: (SingleDimLoad::new(d), SingleDimLoad::default()) });
+        }
+        Activity::new_with_job(Arc::new(Single { places: vec![], dimens }))
+    };
+    let mut routes = vec![];
+    for (i, ds) in demands.iter().enumerate() {
+        let mut rc = RouteContext::new(fleet.actors.iter().find(|a| a.vehicle.dimens.get_vehicle_id().unwrap() == &format!("v{i}")).unwrap().clone());
+        rc.route_mut().tour.insert_last(mk_act(true, 0));
+        // the last job of route 0 is the one that arrives later
+        let upto = if i == 0 { ds.len().saturating_sub(1) } else { ds.len() };
+        for d in ds.iter().take(upto) {
+            rc.route_mut().tour.insert_last(mk_act(false, *d));
+        }
+        goal.accept_route_state(&mut rc);
+        routes.push(rc);
+    }
+    let registry = Registry::new(&fleet, Arc::new(DefaultRandom::default()));
+    let mut sctx = SolutionContext {
+        required: vec![],
+        ignored: vec![],
+        unassigned: Default::default(),
+        locked: Default::default(),
+        routes,
+        registry: RegistryContext::new(&goal, registry),
+        state: Default::default(),
+    };
+    goal.accept_solution_state(&mut sctx);
+    let stale_before: Vec<bool> = sctx.routes.iter().map(|rc| rc.is_stale()).collect();
+    if let Some(d) = demands[0].last() {
+        let act = mk_act(false, *d);
+        let job = Job::Single(act.job.clone().unwrap());
+        sctx.routes[0].route_mut().tour.insert_last(act);
+        goal.accept_insertion(&mut sctx, 0, &job);
+    }
+    let total: i32 = demands.iter().flatten().sum();
+    let left = cap - total;
+    let last = sctx.routes.len() - 1;
+    let probe = |d: i32| {
+        let rc = &sctx.routes[last];
+        let target = mk_act(false, d);
+        let actx = ActivityContext { index: 1, prev: rc.route().tour.get(1).unwrap(), target: &target, next: rc.route().tour.get(2) };
+        goal.evaluate(&MoveContext::activity(&sctx, rc, &actx)).is_some()
+    };
+    println!("{}", serde_json::to_string(&json!({"left": left, "rejected_fitting": probe(left.max(0)), "rejected_exceeding": probe(left.max(0) + 1), "stale_before_insertion": stale_before})).unwrap());
+}
+
+/// Skills rule (C01): one job with the given skill lists offered to a vehicle with the given skills.
+fn skills(case: &Value) {
+    use std::collections::HashSet;
+    use vrp_core::construction::features::{create_skills_feature, JobSkills, JobSkillsDimension, VehicleSkillsDimension};
+    let list = |v: &Value| v.as_array().map(|a| a.iter().map(|x| x.as_str().unwrap().to_string()).collect::<Vec<_>>());
+    let mut vdimens = Dimensions::default();
+    if let Some(sk) = list(&case["vehicle"]) {
+        vdimens.set_vehicle_skills(sk.into_iter().collect::<HashSet<_>>());
+    }
+    let vehicle = Vehicle {
+        profile: Profile::default(),
+        costs: costs(&Value::Null),
+        dimens: vdimens,
+        details: vec![VehicleDetail {
+            start: Some(VehiclePlace { location: 0, time: TimeInterval { earliest: Some(0.), latest: None } }),
+            end: None,
+        }],
+    };
+    let driver = Driver { costs: costs(&Value::Null), dimens: Default::default(), details: vec![] };
+    let fleet = Fleet::new(vec![Arc::new(driver)], vec![Arc::new(vehicle)], |_| |_| 0);
+    let mut jdimens = Dimensions::default();
+    if case["job"].is_object() {
+        jdimens.set_job_skills(JobSkills::new(list(&case["job"]["all_of"]), list(&case["job"]["one_of"]), list(&case["job"]["none_of"])));
+    }
+    let job = Job::Single(Arc::new(Single { places: vec![], dimens: jdimens }));
+    let feature = create_skills_feature("skills", ViolationCode(11)).unwrap();
+    let rc = RouteContext::new(fleet.actors[0].clone());
+    let goal = GoalContextBuilder::with_features(&[feature.clone(), vrp_core::construction::features::create_minimize_tours_feature("t").unwrap()]).unwrap().build().unwrap();
+    let registry = Registry::new(&fleet, Arc::new(DefaultRandom::default()));
+    let sctx = SolutionContext { required: vec![], ignored: vec![], unassigned: Default::default(), locked: Default::default(), routes: vec![],
+        registry: RegistryContext::new(&goal, registry), state: Default::default() };
+    let verdict = feature.constraint.as_ref().unwrap().evaluate(&MoveContext::route(&sctx, &rc, &job));
+    println!("{}", serde_json::to_string(&json!({"rejected": verdict.is_some()})).unwrap());
+}
+
+/// Compatibility rule (C05 / C01): a route with jobs of the given classes, refreshed, then a job of a class is offered.
+fn compatibility(case: &Value) {
+    use vrp_core::construction::features::{create_compatibility_feature, JobCompatibilityDimension};
+    let vehicle = Vehicle {
+        profile: Profile::default(),
+        costs: costs(&Value::Null),
+        dimens: Default::default(),
+        details: vec![VehicleDetail {
+            start: Some(VehiclePlace { location: 0, time: TimeInterval { earliest: Some(0.), latest: None } }),
+            end: None,
+        }],
+    };
+    let driver = Driver { costs: costs(&Value::Null), dimens: Default::default(), details: vec![] };
+    let fleet = Fleet::new(vec![Arc::new(driver)], vec![Arc::new(vehicle)], |_| |_| 0);
+    let mk = |class: &Value| {
+        let mut dimens = Dimensions::default();
+        if let Some(c) = class.as_str() {
+            dimens.set_job_compatibility(c.to_string());
+        }
+        Arc::new(Single { places: vec![], dimens })
+    };
+    let feature = create_compatibility_feature("compat", ViolationCode(12)).unwrap();
+    let goal = GoalContextBuilder::with_features(&[feature.clone(), vrp_core::construction::features::create_minimize_tours_feature("t").unwrap()]).unwrap().build().unwrap();
+    let mut rc = RouteContext::new(fleet.actors[0].clone());
+    if let Some(prev) = case["previous_tag"].as_str() {
+        // an outdated tag: a job of that class was in the tour, the tag was computed, the job left again
+        let old = mk(&json!(prev));
+        rc.route_mut().tour.insert_last(Activity::new_with_job(old.clone()));
+        goal.accept_route_state(&mut rc);
+        rc.route_mut().tour.remove(&Job::Single(old));
+    }
+    for class in case["classes"].as_array().unwrap() {
+        rc.route_mut().tour.insert_last(Activity::new_with_job(mk(class)));
+    }
+    goal.accept_route_state(&mut rc);
+    let registry = Registry::new(&fleet, Arc::new(DefaultRandom::default()));
+    let sctx = SolutionContext { required: vec![], ignored: vec![], unassigned: Default::default(), locked: Default::default(), routes: vec![],
+        registry: RegistryContext::new(&goal, registry), state: Default::default() };
+    let job = Job::Single(mk(&case["class"]));
+    let verdict = feature.constraint.as_ref().unwrap().evaluate(&MoveContext::route(&sctx, &rc, &job));
+    println!("{}", serde_json::to_string(&json!({"rejected": verdict.is_some()})).unwrap());
+}
+
 /// `Statistic + Statistic` through the public operator.
 fn statistic_sum(case: &Value) {
     use vrp_pragmatic::format::solution::{Statistic, Timing};
@@ -1059,6 +1229,15 @@ fn main() {
     }
     if case["kind"] == "group_state" {
         return group_state(&case);
+    }
+    if case["kind"] == "skills" {
+        return skills(&case);
+    }
+    if case["kind"] == "compatibility" {
+        return compatibility(&case);
+    }
+    if case["kind"] == "shared_resource" {
+        return shared_resource(&case);
     }
     if case["kind"] == "ctx_from_solution" {
         return ctx_from_solution(&case);
